@@ -1,4 +1,4 @@
-SPECIFICATION Spec
+SPECIFICATION SpecFb
 CONSTANTS
   MaxSteps = 6
   MaxCycles = 3
@@ -8,7 +8,7 @@ CONSTANTS
   EnableDebugWrites = TRUE
   SrcVals = {0, 3, 255}
   Dts = {1, 2, 5}
-  CfgSel = "base"
+  CfgSel = "fb"
 VIEW View
 CHECK_DEADLOCK FALSE
 INVARIANTS
